@@ -39,6 +39,9 @@ def table_script(r):
         seen.add(l)
         sites.append((l, r.choice([0, 1, 1, 2, 3]), r.choice([1, 1, 2, 2, 3])))
     lines = ["site %s %d %d" % (pipeline.lab(l), o, s) for l, o, s in sites]
+    if r.chance(1, 3):
+        # the classification object is declared when only the first site exists (it refers to the lattice's site map)
+        lines.insert(1, "earlyctor")
     lines.append("index %d" % r.below(2))
     # probes
     for _ in range(6):
@@ -51,7 +54,7 @@ def table_script(r):
     k = r.below(3)
     if k == 1:
         # the same lattice indexed again in the other ordering mode (a second IndexClassification object in the process)
-        mode = int(lines[len(sites)].split()[1])
+        mode = int(next(l for l in lines if l.startswith("index ")).split()[1])
         lines.append("index %d" % (1 - mode))
         for _ in range(5):
             l, o, s = r.choice(sites)
